@@ -64,7 +64,8 @@ impl<M: MemBuilder> AnyVecRaw<M> {
         let mut cloned = self.clone_empty();
 
         // 2. allocate
-        cloned.mem.expand(self.len);
+        // `reserve` expand only if needed. Fixed capacity Mem can't `expand`.
+        cloned.reserve(self.len);
 
         // 3. copy/clone
         {
